@@ -415,7 +415,7 @@ def main(ctx, replay):
                 else:
                     md = "None" if rq.get("no_md") else "(Some %s)" % L.cbs(rq["auth"])
                     items.append("ev_worker cfg%d %s %s %s %s" % (ci, OPK[rq["op"]], L.cb(rq["endpoint"]), C.coq_bool(not rq.get("bad_args")), md))
-            b.append("Definition out%d := Eval vm_compute in [%s].\nPrint out%d." % (ci, ";\n ".join(items), ci))
+            b.append("Definition out%d := Eval vm_compute in [%s].\nRedirect \"c11out%d\" Print out%d." % (ci, ";\n ".join(items), ci, ci))
         bodies.append("\n".join(b) + "\n")
         shard_cfgs.append(idxs)
     # compile rule
@@ -431,7 +431,7 @@ def main(ctx, replay):
                 raise RuntimeError("model evaluation failed: " + out[-2000:])
             continue
         for ci in idxs:
-            rows = L.parse_nested(out, "out%d" % ci)
+            rows = L.parse_nested(L.read_redirect(ctx, "c11out%d" % ci), "out%d" % ci)
             if rows is None or len(rows) != len(all_reqs[ci]):
                 raise RuntimeError("could not parse model output out%d" % ci)
             dec = []
